@@ -288,6 +288,11 @@ def run_fs(ctx, laws, keep, owns, profile=None, twins=False, post=None, lz=False
     all_events, n_states, unb_all = [], 0, []
     for gi, (depth, tier) in enumerate(gens):
         alphabet, states = generate(ctx, depth, tier)
+        if gi > 0:
+            # second generator run: only the states one mutation away from the initial configurations (the initial
+            # ones were covered by the first run), every other one to stay inside the time budget
+            deeper = sorted((s for s in states if s["depth"] > 0), key=lambda s: json.dumps(s, sort_keys=True))
+            states = deeper[::2]
         n_states += len(states)
         cases = build_cases(states, alphabet, keep, twins=twins, readback=not twins)
         if unsupported_games and gi == 0:
